@@ -91,6 +91,19 @@ RadHi(lt, z, all, rk, c)      == CASE rk = "zero"    -> z
                                    [] rk = "between" -> WithinClass(lt, c)
                                    [] rk = "beyond"  -> all
 
+(* ---- argument purity and repeatability ---------------------------------------------------- *)
+\* Every query entry point is also called with a caller-owned coordinate container that is
+\* finger-printed before and after (ArgsKept) and passed AGAIN, unchanged, `repeats` times; every
+\* repeat must give the first answer (Repeatable), which is judged like any other answer.
+\* The container kind and the repeat count of a case are chosen here, spread over the cases.
+Containers == << "f64", "f32", "f64F", "view", "list", "tuple" >>
+PurityOps  == << "query k=1", "query k>1", "query no distance", "radius", "radius with distance", "radius count" >>
+PurityOf(q, S) == LET h == Abs(q[1]) + 2 * Abs(q[2]) + 3 * Abs(q[3]) + Len(S) + (IF q[1] < 0 THEN 1 ELSE 0) IN
+                  [ container |-> Containers[1 + (h % Len(Containers))],
+                    batched   |-> (h \div Len(Containers)) % 2 = 1,
+                    repeats   |-> 2 + (h % 2),
+                    ops       |-> PurityOps ]
+
 (* ---- descriptors for the numeric side ---------------------------------------------- *)
 \* great-circle distance q--S[e] = atan2(sqrt(num), dot); chord = 2 sin(angle / 2)
 DistDescr(q, S) == [ e \in Idx(S) |-> GeoDescr(q, S[e]) ]
